@@ -126,6 +126,13 @@ func (w *World) Revive(host string) {
 	w.logEv("env", host, "revive", "", "ok")
 }
 
+// ReplRound is the number of Replicate() rounds so far.
+func (w *World) ReplRound() int {
+	w.Mu.Lock()
+	defer w.Mu.Unlock()
+	return w.replRound
+}
+
 // Replicate moves data along every healthy replication link once (lock NOT held).
 func (w *World) Replicate() {
 	w.Mu.Lock()
